@@ -329,7 +329,7 @@ func init() {
 			fmt.Println(jstr(res.After.Store))
 			return 0
 		}
-		n := 2000
+		n := 8000
 		if thorough() {
 			n = 100000
 		}
